@@ -1,0 +1,47 @@
+//! Verification hooks. This module only exists when the crate is built with
+//! `--cfg grmtools_verif`; nothing in a normal build refers to it.
+//!
+//! It is a thread-local sink into which instrumented code in `cfgrammar`, `lrtable` and `lrpar`
+//! writes one JSON object per event, plus an optional override of the error recovery time
+//! budget (so that a verification harness never mistakes a scheduling artefact for "no repairs").
+
+use std::cell::{Cell, RefCell};
+
+thread_local! {
+    static EVENTS: RefCell<Option<Vec<String>>> = const { RefCell::new(None) };
+    static RECOVERY_BUDGET_MS: Cell<Option<u64>> = const { Cell::new(None) };
+}
+
+/// Start recording events on this thread (discarding anything recorded so far).
+pub fn start() {
+    EVENTS.with(|e| *e.borrow_mut() = Some(Vec::new()));
+}
+
+/// Is recording switched on for this thread?
+pub fn enabled() -> bool {
+    EVENTS.with(|e| e.borrow().is_some())
+}
+
+/// Record an event. The closure is only run if recording is switched on.
+pub fn emit<F: FnOnce() -> String>(f: F) {
+    EVENTS.with(|e| {
+        if let Some(v) = e.borrow_mut().as_mut() {
+            v.push(f());
+        }
+    });
+}
+
+/// Stop recording and return everything recorded since `start`.
+pub fn take() -> Vec<String> {
+    EVENTS.with(|e| e.borrow_mut().take().unwrap_or_default())
+}
+
+/// Override (or with `None` restore) the error recovery time budget, in milliseconds.
+pub fn set_recovery_budget_ms(ms: Option<u64>) {
+    RECOVERY_BUDGET_MS.with(|b| b.set(ms));
+}
+
+/// The current override of the error recovery time budget, if any.
+pub fn recovery_budget_ms() -> Option<u64> {
+    RECOVERY_BUDGET_MS.with(|b| b.get())
+}
